@@ -230,17 +230,40 @@ def transport_cases(framing):
         yield 'too-long', f + b'\x00'
 
 
-def run_transport(framing, name, data, ka):
+PRIOR_KINDS = ('none', 'typed-same', 'typed-other', 'raw-same-bytes', 'raw-other-bytes')
+
+
+def run_transport(framing, name, data, ka, prior='none'):
+    """The explored request is the typed command; `prior` is an earlier request on the same protocol object that was
+    answered by a well-formed frame: the same typed command, another typed command, or a caller-supplied raw command
+    (Inverter.send_command style: permissive validator) with the very same / other request bytes."""
     world.reset()
+    spec = ('aa55', '010600', '0186', 6) if framing == 'aa55' else ('read', 0x891C, 3)
+    good = canonical(framing, spec)
+    state = dict(prior=prior != 'none')
 
     def plan(k, req, now):
-        if framing == 'tcp' and len(data) >= 2:
-            return [(D0, ('data', req[:2] + data[2:]))]
-        return [(D0, ('data', data))]
+        d = good if state['prior'] else data
+        if framing == 'tcp' and len(d) >= 2:
+            return [(D0, ('data', req[:2] + d[2:]))]
+        return [(D0, ('data', d))]
     peer = PlanPeer(plan)
     loop = KLoop(peer)
     p = make_protocol('tcp' if framing == 'tcp' else 'udp', 1, 0, ka)
-    cmd = gp.Aa55ProtocolCommand("010600", "0186") if framing == 'aa55' else p.read_command(0x891C, 3)
+
+    def typed(other=False):
+        if framing == 'aa55':
+            return gp.Aa55ProtocolCommand("010600" if not other else "010200", "0186")
+        return p.read_command(0x891C if not other else 0x9088, 3)
+    if prior != 'none':
+        if prior.startswith('typed'):
+            pc = typed(prior == 'typed-other')
+        else:
+            raw = typed(prior == 'raw-other-bytes').request_bytes() if hasattr(typed(), 'request_bytes') else typed().request
+            pc = gp.ProtocolCommand(raw, lambda x: True)
+        loop.run(_exec(pc, p))
+        state['prior'] = False
+    cmd = typed()
     st, res = loop.run(_exec(cmd, p))
     if st == 'hang':
         return [('terminates', str(res))], res
@@ -357,11 +380,13 @@ def run(tier, seed, rep):
     for framing in ('rtu', 'tcp', 'aa55'):
         for name, data in transport_cases(framing):
             for ka in (False, True):
-                vio, res = run_transport(framing, name, data, ka)
-                nt += 1
-                for clause, cause in vio:
-                    rep.add(f'{clause}/{framing}/{name}', clause,
-                            dict(part='K', framing=framing, name=name, data=data.hex(), ka=ka), dict(cause=cause))
+                for prior in PRIOR_KINDS:
+                    vio, res = run_transport(framing, name, data, ka, prior)
+                    nt += 1
+                    for clause, cause in vio:
+                        rep.add(f'{clause}/{framing}/{name}' + (f'/after:{prior}' if prior != 'none' else ''), clause,
+                                dict(part='K', framing=framing, name=name, data=data.hex(), ka=ka, prior=prior),
+                                dict(cause=cause, earlier_request=prior))
     cov = dict(evaluations=total + nt + ncross, distinct_nontrivial=nontriv, cross_command_evaluations=ncross,
                rule='strings = every prefix + every single-bit flip of every canonical frame, field-grammar product '
                     '(header x unit x function x byte count x bytes present x checksum variant x trailing; echoed '
@@ -389,5 +414,5 @@ def replay(r):
         o = check_one(cmd, r['framing'], desc, bytes.fromhex(r['data']), vio, spec, 'replay')
         return dict(outcome=o, classifier=wire.classify_response(r['framing'], desc, bytes.fromhex(r['data'])),
                     violations=[v[:2] + (v[4],) for v in vio])
-    vio, res = run_transport(r['framing'], r['name'], bytes.fromhex(r['data']), r['ka'])
+    vio, res = run_transport(r['framing'], r['name'], bytes.fromhex(r['data']), r['ka'], r.get('prior', 'none'))
     return dict(result=[str(x) for x in res[:3]], violations=vio)
